@@ -186,11 +186,19 @@ type ErrReader struct {
 	calls      int
 	n          int
 	Failed     bool
+	// Once: the fault is transient - that one Read fails, later ones deliver the rest of the stream
+	Once bool
 }
 
 func (e *ErrReader) Read(p []byte) (int, error) {
-	if e.Failed {
+	if e.Failed && !e.Once {
 		return 0, e.Err
+	}
+	if e.Failed {
+		e.calls++
+		n, err := e.R.Read(p)
+		e.n += n
+		return n, err
 	}
 	if e.AfterBytes >= 0 {
 		left := e.AfterBytes - e.n
